@@ -115,7 +115,13 @@ def run_session(chk, exe, dpool, refs, hist_scripts, label):
     srclines = [line("src", n, sx(b)) for n, b in dpool.items()]
     # reference executions: one process per key (fresh-process semantics)
     ref_segs = [["seg\tref"] + [line("src", s, sx(dpool[s]))] + [conv_line("s_conv", s, o)] for (s, o) in refs]
-    ref_res = run_harness(exe, ref_segs, shards=len(ref_segs)) if ref_segs else []
+    # (the reference executions get fresh heap blocks filled with another byte -- 'r' -- than the histories: a result that depends on what a fresh block
+    #  happens to hold is a result that depends on what the process did before)
+    os.environ["VERIF_MALLOC_FILL"] = "114"
+    try:
+        ref_res = run_harness(exe, ref_segs, shards=len(ref_segs)) if ref_segs else []
+    finally:
+        os.environ.pop("VERIF_MALLOC_FILL", None)
     hsegs = [["seg\thist"] + srclines + h for h in hist_scripts]
     hres = run_harness(exe, hsegs)
     trace = []; problems = []
@@ -194,7 +200,21 @@ def run(tier, seed):
             for o in (OPTS[0], OPTS[2], OPTS[6], OPTS[7]) if tier == "quick" else OPTS[:9]:
                 scripts.append([line("e_new", 0, d1, o[1], docs.LANG[o[2]]), line("e_conv", 0, docs.FMT[o[0]]), line("e_settext", 0, d2), line("e_conv", 0, docs.FMT[o[0]]),
                                 line("e_data", 0, docs.FMT[o[0]]), line("e_free", 0)])
-    refs = sorted({(s, o) for s in dn for o in allopts}, key=str)
+    # ONE text on one engine, converted to format after format (every ordered pair of textual formats occurs): an export must leave behind nothing that the next
+    # export of the same, unchanged text could pick up (writers work on the tree and on the definitions in place)
+    dpool["dims"] = b"Report\n======\n\n![chart][c] and ![i](i.png width=30px height=10px) \"q\" -- x\n\nSub [sub]  \n---\n\n* item[^n]\n\n| a | b |\n|---|:-:|\n| 1 | 2 |\n[Cap][tb]\n\n[c]: chart.png width=40px height=20px\n[^n]: note *em*\n"
+    WALK = ["html", "latex", "beamer", "memoir", "opml", "html", "memoir", "latex", "html", "opml", "beamer", "html"]
+    wopts = [(f, docs.STD, "en") for f in ("html", "latex", "beamer", "memoir", "opml")]
+    for d in dn + ["dims"]:
+        for wk in (WALK, WALK[::-1]):
+            scripts.append([line("e_new", 0, d, docs.STD, docs.LANG["en"])] + [line("e_conv", 0, docs.FMT[f]) for f in wk] + [line("e_free", 0)])
+    # a table whose rows have more cells than its separator line has columns, converted after a wider table (what the earlier table left in the alignment record)
+    dpool["wide"] = b"| a | b | c | d | e | f |\n|--:|--:|--:|--:|--:|--:|\n| 1 | 2 | 3 | 4 | 5 | 6 |\n"
+    dpool["ragged"] = b"| a | b |\n| --- | --- |\n| 1 | 2 | 3 | 4 | 5 |\n\n| x |\n|:-:|\n| 1 | 2 | 3 |\n"
+    for o in wopts + [("fodt", docs.STD, "en")]:
+        scripts.append([conv_line("s_conv", "wide", o), conv_line("s_conv", "ragged", o), conv_line("d_conv", "wide", o), conv_line("s_data", "ragged", o)])
+        scripts.append([line("e_new", 0, "wide", o[1], docs.LANG[o[2]]), line("e_conv", 0, docs.FMT[o[0]]), line("e_settext", 0, "ragged"), line("e_conv", 0, docs.FMT[o[0]]), line("e_free", 0)])
+    refs = sorted({(s, o) for s in dn for o in allopts} | {(s, o) for s in dn + ["dims"] for o in wopts} | {(s, o) for s in ("wide", "ragged") for o in wopts + [("fodt", docs.STD, "en")]}, key=str)
     problems, trace = run_session(chk, exe, dpool, refs, scripts, "pool")
     nconv = len([e for e in trace if e["e"] == "conv"])
     # 3. corpus histories: random order, reused engine and fresh engines, textual formats
